@@ -208,6 +208,19 @@ pub struct DRevUnit {
     x: u32,
 }
 
+/// The attributes of a field in the other order (`#[reverse]` first): the derive must not care.
+#[derive(Clone, Debug, PartialEq, Eq, TypedTupleKey)]
+pub struct DRevFirst {
+    #[reverse]
+    #[tuple_key(1)]
+    a: u32,
+    #[tuple_key(2)]
+    b: String,
+    #[reverse]
+    #[tuple_key(3)]
+    c: i64,
+}
+
 pub trait Derived:
     Sized + Clone + PartialEq + std::fmt::Debug + Into<tuple_key::TupleKey> + TryFrom<tuple_key::TupleKey, Error = tuple_key::SError>
 {
@@ -278,13 +291,27 @@ impl Derived for DRevUnit {
     }
 }
 
-pub const DERIVED_NAMES: [&str; 4] = ["DFwd", "DRev", "DUnit", "DRevUnit"];
+impl Derived for DRevFirst {
+    const NAME: &'static str = "DRevFirst";
+    fn schema() -> Vec<Elem> {
+        vec![(Kind::U32, Dir::Desc), (Kind::Str, Dir::Asc), (Kind::I64, Dir::Desc)]
+    }
+    fn from_vals(v: &[Val]) -> Self {
+        match (&v[0], &v[1], &v[2]) {
+            (Val::U32(a), Val::Str(b), Val::I64(c)) => DRevFirst { a: *a, b: b.clone(), c: *c },
+            _ => panic!("machinery: DRevFirst"),
+        }
+    }
+}
+
+pub const DERIVED_NAMES: [&str; 5] = ["DFwd", "DRev", "DUnit", "DRevUnit", "DRevFirst"];
 
 pub fn derived_schema(name: &str) -> Vec<Elem> {
     match name {
         "DFwd" => DFwd::schema(),
         "DRev" => DRev::schema(),
         "DUnit" => DUnit::schema(),
+        "DRevFirst" => DRevFirst::schema(),
         _ => DRevUnit::schema(),
     }
 }
@@ -424,6 +451,7 @@ pub fn run_case(case: &Value) -> Vec<Finding> {
             "DRev" => go::<DRev>(&a, b.as_deref()),
             "DUnit" => go::<DUnit>(&a, b.as_deref()),
             "DRevUnit" => go::<DRevUnit>(&a, b.as_deref()),
+            "DRevFirst" => go::<DRevFirst>(&a, b.as_deref()),
             _ => bad("struct"),
         };
     }
